@@ -362,15 +362,19 @@ class _FPCoreCompileInstance(Visitor):
 
     def _visit_range3(self, start: Expr, stop: Expr, step: Expr, ctx: None) -> fpc.Expr:
         # range(start, stop, step) =>
-        # (tensor ([i (! :precision integer (ceil (/ (- stop start) step)))])
+        # (tensor ([i (! :precision integer :round toPositive (/ (- stop start) step))])
         #   (! :precision integer (+ (* i step) start)))
+        # The length is `ceil((stop - start) / step)`: the division is rounded
+        # ONCE, to an integer towards +inf.  (Rounding the quotient to the
+        # nearest integer first and taking `ceil` of that loses an element,
+        # e.g. `range(0, 5, 2)`: 2.5 -> 2.)
         tuple_id = str(self.gensym.fresh('i'))
         start_expr = self._visit_expr(start, ctx)
         stop_expr = self._visit_expr(stop, ctx)
         step_expr = self._visit_expr(step, ctx)
         return fpc.Tensor(
-            [(tuple_id, fpc.Ctx({ 'precision': 'integer' },
-                fpc.Ceil(fpc.Div(fpc.Sub(stop_expr, start_expr), step_expr))))],
+            [(tuple_id, fpc.Ctx({ 'precision': 'integer', 'round': 'toPositive' },
+                fpc.Div(fpc.Sub(stop_expr, start_expr), step_expr)))],
             fpc.Ctx({ 'precision': 'integer' },
                 fpc.Add(fpc.Mul(fpc.Var(tuple_id), step_expr), start_expr))
         )
